@@ -12,7 +12,8 @@
                 is random or time based - they differ between any two fresh objects - are masked)
      parse(s)   the object parsed from the caller's bytearray equals the one parsed from an
                 immutable copy of the same bytes
-     bufmutate  no object changes *)
+     bufmutate  no object changes
+     resmutate  the caller edits the value the last observer returned: no object changes *)
 EXTENDS Naturals, Sequences, Json, IOUtils, TLC, TLCExt
 
 T == ndJsonDeserialize(IOEnv.TRACE_FILE)
@@ -53,6 +54,10 @@ Step == /\ T[l].ev = "step"
                   /\ Report(e.dg[s] = e.parsed, <<"BAD", "parsed-object-differs", l, e.obs>>)
                   /\ Report(\A t \in Others(s) : e.dg[t] = exp[t], <<"BAD", "parse-changed-another-object", l, e.obs>>)
                   /\ memo' = [memo EXCEPT ![s] = NoMemo[s]]
+                  /\ exp' = [t \in Slots |-> e.dg[t]]
+             [] name = "resmutate" ->
+                  /\ Report(\A t \in Slots : e.dg[t] = exp[t], <<"BAD", "observer-result-aliases-the-object", l, e.obs>>)
+                  /\ memo' = memo
                   /\ exp' = [t \in Slots |-> e.dg[t]]
              [] name = "bufmutate" ->
                   /\ Report(\A t \in Slots : e.dg[t] = exp[t], <<"BAD", "object-aliases-input-buffer", l, e.obs>>)
